@@ -74,7 +74,7 @@ def run(self, until=None):
             until = Event(self)
             until._ok = True
             until._value = None
-            self.schedule(until, URGENT, at - self.now)
+            heappush(self._queue, (at, URGENT, next(self._eid), until))
             until.callbacks.append(StopSimulation.callback)
         elif until.callbacks is None:
             return until.value
@@ -141,7 +141,7 @@ def fail(self, exception):
 
 spec('Timeout', '__init__', what='negative delay refused; value/ok set; scheduled NORMAL at exactly now + delay')('''
 def __init__(self, env, delay, value=None):
-    if delay < 0:
+    if not delay >= 0:
         raise ValueError()
     super().__init__(env)
     self._value = value
